@@ -100,6 +100,17 @@ def cases(tier, seed):
     # (l) second-quantised perturbation that couples degenerate (resonant) levels
     for model in ("boson-hop", "fermion-hop", "jc-resonant", "boson-hop-matrix", "two-photon"):
         out.append(dict(cls="sq-resonant", model=model, total=2))
+    # (n) implicit mode: orthonormal explicit vectors that do not span an invariant subspace of H_0 (one vector rotated
+    #     towards an eigenvector of the complement): H_0 has a block between an explicit and the implicit subspace
+    for nexp_blocks in ((2,), (1, 1), (2, 1), (1, 2)):
+        for which in range(sum(nexp_blocks)):
+            for herm in (True, False):
+                for solver in ("direct", "kpm") if herm else ("direct",):
+                    for fd in (None, [0]):
+                        if fd and solver == "kpm":
+                            continue
+                        out.append(dict(cls="implicit-leak", blocks=list(nexp_blocks), which=which, hermitian=herm, solver=solver,
+                                        fd=fd, total=2))
     # (m) second-quantised H_0 that is not number conserving in some (each in turn / all) of its internal levels
     for nlev in (1, 2, 3):
         for bad in itertools.product((0, 1), repeat=nlev):
@@ -172,7 +183,7 @@ def run_case(case):
 
 
 def describe_short(case):
-    keys = ("sizes", "E", "fd", "pos", "repr", "hermitian", "defect", "order", "nsym", "rel", "big", "ops", "others", "bad", "nlev", "split", "drive")
+    keys = ("sizes", "E", "fd", "pos", "repr", "hermitian", "defect", "order", "nsym", "rel", "big", "ops", "others", "bad", "nlev", "split", "drive", "blocks", "which", "solver")
     return {k: case[k] for k in keys if k in case}
 
 
@@ -572,6 +583,46 @@ def run_symbolic_nonhermitian_scalar(case):
             answered.append(n)
     if max(m, 1) in answered:
         V.append(f"scalar second-quantised input with a non-Hermitian {case['bad']} term at order x^{m}: H_tilde at order {max(m, 1)} was answered")
+    return V, True, "constructed"
+
+
+def run_implicit_leak(case):
+    from scipy import sparse
+
+    from pymablock import block_diagonalize
+
+    n = 7
+    blocks = case["blocks"]
+    nexp = sum(blocks)
+    rng = np.random.default_rng([case["seed"], n, nexp, 23])
+    E = np.array([0.0, 1.0, 3.0, 7.0, 12.0, 20.0, 33.0])
+    A = rng.normal(size=(n, n)) + 1j * rng.normal(size=(n, n))
+    Q, _ = np.linalg.qr(A)
+    h0 = Q @ np.diag(E) @ Q.conj().T
+    B = rng.normal(size=(n, n)) + 1j * rng.normal(size=(n, n))
+    h1 = B + B.conj().T if case["hermitian"] else B
+    vec = Q[:, :nexp].copy()
+    w, theta = case["which"], 0.3
+    vec[:, w] = np.cos(theta) * Q[:, w] + np.sin(theta) * Q[:, n - 2]  # still orthonormal, no longer invariant
+    off = [0] + list(np.cumsum(blocks))
+    kwargs = dict(subspace_eigenvectors=tuple(vec[:, off[b] : off[b + 1]] for b in range(len(blocks))), hermitian=case["hermitian"])
+    if case["solver"] == "kpm":
+        kwargs["direct_solver"] = False
+        kwargs["solver_options"] = {"atol": 1e-4}
+    if case["fd"]:
+        kwargs["fully_diagonalize"] = case["fd"]
+    status, res, _ = build_and_probe([sparse.csr_array(h0), sparse.csr_array(h1)], kwargs, None, case["total"], False)
+    if status == "rejected-at-construction":
+        return [], True, status
+    if status.startswith("bad"):
+        return [f"implicit mode with a non-invariant explicit subspace: {status}"], True, "bad"
+    V = []
+    for key, r in res.items():
+        if r[0] == "bad":
+            V.append(f"implicit mode with a non-invariant explicit subspace: element {key} raises {r[1]}")
+            break
+    if not V and not any(r[0] == "rejected" for r in res.values()):
+        V.append("implicit mode: explicit vectors that are orthonormal but not an invariant subspace of H_0 were accepted and every element answered")
     return V, True, "constructed"
 
 
